@@ -373,12 +373,28 @@ func TestC10Worker(t *testing.T) {
 	marker("BEGIN zones")
 	for _, tz := range []string{"UTC", "Europe/Helsinki", "America/New_York", "Asia/Kolkata", "Nowhere/Invalid", "/etc/passwd", "../../etc/passwd", ""} {
 		os.Setenv("TZ", tz)
+		// where the zone database is said to be: set, moved, taken away again
+		switch len(tz) % 4 {
+		case 0:
+			os.Setenv("ZONEINFO", "/usr/share/zoneinfo")
+		case 1:
+			os.Setenv("ZONEINFO", "/nonexistent/zoneinfo")
+		default:
+			os.Unsetenv("ZONEINFO")
+		}
 		marker("CALL zone " + tz)
 		for _, fn := range []string{"hour", "minute", "seconds", "day", "month", "year", "weekday", "now", "time"} {
 			run("return "+fn+"(1700000000);", nil, nil)
 			run("return "+fn+"();", nil, nil)
 			run("return "+fn+"(When);", nil, map[string]interface{}{"When": 1600000000})
 		}
+	}
+	os.Unsetenv("ZONEINFO")
+	for _, tz := range []string{"Asia/Kolkata", "Europe/Helsinki"} {
+		os.Setenv("TZ", tz)
+		marker("CALL zone after ZONEINFO " + tz)
+		run("return [hour(1700000000), weekday(0), now() > 0];", nil, nil)
+		run("return hour(When);", nil, map[string]interface{}{"When": 1600000000})
 	}
 	os.Unsetenv("TZ")
 	marker("END zones")
@@ -391,6 +407,13 @@ func TestC10Worker(t *testing.T) {
 		}
 		run("return getenv(\""+n+"\");", nil, nil)
 		run("x = getenv(N); return len(x) + len(getenv(N + \"_FILE\"));", map[string]lang.Value{"N": lang.Str(n)}, nil)
+	}
+	// names dressed up the way shells and templates dress them
+	for i, n := range []string{"C10_UNSET", "C10_EMPTY", "TZ", "HOME", "C10_TOKEN", "ZONEINFO"} {
+		marker(fmt.Sprintf("CALL getenv dressed %d", i))
+		for _, form := range []string{"%s:-/tmp/c10-probe-file", "%s:=/tmp/c10-probe-file", "%s=/tmp/c10-probe-file", "${%s}", "$%s", "%s:+x", "%s:?x", "%s;id", "%s\n", " %s ", "%s:=Asia/Tokyo"} {
+			run("return [getenv(\""+fmt.Sprintf(form, n)+"\"), hour(1700000000)];", nil, nil)
+		}
 	}
 	marker("END environment")
 	// the variables the library itself gives a meaning to
